@@ -13,7 +13,7 @@ From Coq Require Import List NArith Bool.
 Import ListNotations.
 From Coq Require Strings.String.
 Import Strings.String.StringSyntax.
-From LI Require Import Base.StrOps Parser.Formatter Parser.FormatterProofs Runtime.FormatCache Runtime.FormatKeys
+From LI Require Import Base.StrOps Parser.Formatter Parser.FormatterProofs Runtime.FormatCache Runtime.FormatKeys Runtime.FormatProvider
   Runtime.FormatCacheProofs.
 
 (** for every name and argument list — as `{{ v, name(args) }}` delivers them after splitting, and as
@@ -84,6 +84,29 @@ Theorem C18_cache_transparent_keys :
     In (t, k, o) (st_log _ _ _ _ _ (run _ _ _ _ _ loc_eqb key_eqb make icu sched (init _ _ _ _ _ progs))) ->
     o = icu_fmt _ _ _ _ _ make icu k.
 Proof. exact cache_transparent_keys. Qed.
+
+(** the ICU data provider is part of the same process-wide state: once [set_icu_data_provider] has stored [p]
+    (documented use: once, at start-up), every call of EVERY thread is served by formatters built from [p] -
+    for every set of thread programs and every schedule *)
+Theorem C18_provider_global :
+  forall (provider locale opts fmt value out : Type)
+         (loc_eqb : locale -> locale -> bool) (opt_eqb : opts -> opts -> bool),
+    (forall a b, loc_eqb a b = true -> a = b) -> (forall a b, opt_eqb a b = true -> a = b) ->
+  forall (build : provider -> locale -> opts -> option fmt) (icu : fmt -> value -> out) (p : provider)
+         (progs : list (list (call locale opts value))) (sched : list nat) t k o,
+    In (t, k, o) (st_log _ _ _ _ _ (run_global provider locale opts fmt value out loc_eqb opt_eqb build icu (Some p) sched progs)) ->
+    o = icu_fmt_with provider locale opts fmt value out build icu p k.
+Proof. exact provider_global. Qed.
+
+(** a thread-local state (maps and provider per thread) is refuted by a 2-thread schedule: thread 0 installs
+    provider 9 and formats, thread 1 formats the same call and panics ("No DataProvider provided.") *)
+Theorem C18_provider_thread_local_refuted :
+  tl_log _ _ _ _ _ (run_tl nat nat nat (nat * nat * nat) nat (nat * nat * nat * nat) Nat.eqb Nat.eqb w_build w_icu3 0 9 [0; 1] w_progs2)%nat
+  = [(0, (1, 7, 5), Out _ ((9, 1, 7), 5)); (1, (1, 7, 5), Panicked _)]%nat
+  /\ icu_fmt_with nat nat nat (nat * nat * nat) nat (nat * nat * nat * nat) w_build w_icu3 9%nat (1, 7, 5)%nat = Out _ ((9, 1, 7), 5)%nat
+  /\ st_log _ _ _ _ _ (run_global nat nat nat (nat * nat * nat) nat (nat * nat * nat * nat) Nat.eqb Nat.eqb w_build w_icu3 (Some 9%nat) [0; 1]%nat w_progs2)
+     = [(0, (1, 7, 5), Out _ ((9, 1, 7), 5)); (1, (1, 7, 5), Out _ ((9, 1, 7), 5))]%nat.
+Proof. exact provider_thread_local_refuted. Qed.
 
 (** two schedules that let every thread finish (e.g. one thread after the other, and 8 threads
     racing) give every thread the same sequence of results *)
